@@ -63,7 +63,7 @@ PROPS = {
     },
     "C05": {
         "groups": [{"name": "json", "tags": "verif", "run": "^VH_C05_"}],
-        "level": "model_checking",
+        "level": "model_checking", "engine_only_msgs": "never writes into|writes only into",
         "bounds": {
             "lemmas": "L1 With, L2 Output, L3 Hook, L4 write-set of every derivation/logging call, L5 UpdateContext after With, L7 pooled events (5 pool preludes x 7 consumers of GetCtx): each one step from an arbitrary parent (context nil / '{' with 0,8,16 spare bytes / fields with spare capacity; hooks with spare capacity; level symbolic; sampler, stack flag, Go context present or not). Backing-array identity and write-sets are tracked by the engine's memory model. L6 (every Context method leaves the receiver's bytes untouched) is asserted by the generated C01 Context harnesses.",
             "trees": "differential: root -> a -> {b, c} for all 6^3 op triples (With+field, Hook, Level, Sample, With+UpdateContext, With+two fields) x 3 emission orders: every node must emit byte-for-byte what the same path emits when built alone from a fresh root",
@@ -75,9 +75,10 @@ PROPS = {
         "groups": [{"name": "json", "tags": "verif", "run": "^VH_C06_"}],
         "level": "other",
         "engine_only_kinds": ["use-after-put", "double-put"],
-        "explanation": "Thread-modular ownership protocol decided by symbolic execution of every finalizer path (not schedule exploration): O1 each pooled object is returned at most once and no field of it is accessed afterwards (the engine marks objects released at Put and checks every later field access in zerolog code); O3 exactly one write per event, complete line, event still owned during the write and pooled after it; O4 consuming a Dict/Array copies its bytes (backing-array identity); O5 buffers above 64 KiB are not pooled; O7 SyncWriter holds its mutex around the inner call and releases it on the panic path. Given sync.Pool's contract these imply each goroutine builds and writes its event in memory no other goroutine touches. Goroutine interleavings, data races on configuration globals and blocking writers are outside the claim.",
+        "engine_only_msgs": "never writes into",
+        "explanation": "Thread-modular ownership protocol decided by symbolic execution of every finalizer path (not schedule exploration): O1 each pooled object is returned at most once and no field of it is accessed afterwards (the engine marks objects released at Put and checks every later field access in zerolog code); O2 (context only) building and writing an event never writes into the logger's context buffer, not even transiently (engine write-set tracking; engine-only observation); O3 exactly one write per event, complete line, event still owned during the write and pooled after it; O4 consuming a Dict/Array copies its bytes (backing-array identity); O5 buffers above 64 KiB are not pooled; O7 SyncWriter holds its mutex around the inner call and releases it on the panic path. Given sync.Pool's contract these imply each goroutine builds and writes its event in memory no other goroutine touches. Goroutine interleavings, data races on configuration globals and blocking writers are outside the claim.",
         "bounds": {"paths": "2 logger shapes x 6 event bodies (nested Dict/Array/Object/Fields/Errs) x 4 finalizers; write-error and ErrorHandler paths; SyncWriter over plain and level writers x Write/WriteLevel/Close x panicking or not"},
-        "assumptions": COMMON_ASSUME + ["sync.Pool modelled as a LIFO free list; use-after-put and double-put are observed by the engine only (they cannot be confirmed by native replay and are reported without it)"],
+        "assumptions": COMMON_ASSUME + ["sync.Pool modelled as a LIFO free list; use-after-put, double-put and write-set observations (never writes into ...) are observed by the engine only (they cannot be confirmed by native replay and are reported without it)"],
     },
     "C08": {
         "groups": [{"name": "cbor", "tags": "verif", "run": "^VH_C08_", "flags": {"harness-timeout": 280},
@@ -133,8 +134,8 @@ PROPS = {
         "assumptions": COMMON_ASSUME + ["threads are interleaved at visible operations only (sync/atomic, Mutex, Cond, channel, WaitGroup, time.Sleep, go); code between two visible operations of a thread is assumed not to race with other threads", "package context's own synchronisation is trusted: its operations are atomic steps", "sync.Pool (bufPool) is a LIFO free list; time.Sleep = 'time passes when nothing else can run'", "schedule counterexamples are reported from the engine's exploration (kinds assert/deadlock are engine-only for these properties: the native replay cannot force a schedule without instrumenting the diode sources)", "fewer than 2^64 ring positions are claimed in the life of a diode"],
     },
     "C11": {
-        "groups": [{"name": "diode", "tags": "verif", "run": "^VH_C10_(waiter|poller)_(1x1|1x2|1x3|2x1)_s[12]_(fresh|steady)_close$", "flags": {"harness-timeout": 200, "max-paths": 150000, "witnesses": 1},
-                    "quick": {"preempt": 2, "run": "^VH_C10_((poller_(1x1|1x2|1x3|2x1)_s[12]_fresh)|(poller_(1x1|1x2)_s[12]_steady)|(waiter_(1x1|1x2)_s[12]_fresh))_close$"}, "thorough": {"preempt": 3, "harness-timeout": 900, "max-paths": 5000000}}],
+        "groups": [{"name": "diode", "tags": "verif", "run": "^VH_C10_((waiter|poller)_(1x1|1x2|1x3|2x1)_s[12]_(fresh|steady)_close|failsink_(waiter|poller))$", "flags": {"harness-timeout": 200, "max-paths": 150000, "witnesses": 1},
+                    "quick": {"preempt": 2, "run": "^VH_C10_(((poller_(1x1|1x2|1x3|2x1)_s[12]_fresh)|(poller_(1x1|1x2)_s[12]_steady)|(waiter_(1x1|1x2)_s[12]_fresh))_close|failsink_(waiter|poller))$"}, "thorough": {"preempt": 3, "harness-timeout": 900, "max-paths": 5000000}}],
         "level": "model_checking", "msg_filter": "^C11", "engine_only_kinds": ["assert", "deadlock", "panic"], "witness_replays": {"quick": 1, "thorough": 1},
         "bounds": {"quick": "Close phase: after all Writes returned and Close returned, delivered + reported >= written (== when no producer retried), nothing dropped while fewer messages than the ring size are outstanding; configurations 1x1, 1x2, 1x3, 2x1 x size {1,2} x {fresh, steady(symbolic)}, waiter and poller; preemption bound 2 + sleep sets",
                    "thorough": "adds 2x2, size 3, preemption bound 3"},
@@ -163,7 +164,7 @@ PROPS = {
         "groups": [{"name": "hlog", "tags": "verif", "run": "^VH_C18_",
                     "quick": {"params": "ops=3"}, "thorough": {"params": "ops=5", "harness-timeout": 3000, "max-paths": 5000000}}],
         "cross_solver": {"run": "^VH_C18_(access|isolation)$"},
-        "level": "model_checking",
+        "level": "model_checking", "engine_only_msgs": "never writes into",
         "bounds": {
             "accounting": "mutil.WrapWriter over the three capability sets (basic / +Flusher / +CloseNotifier+Hijacker+ReaderFrom); every sequence of 3 (thorough 5) operations among WriteHeader(symbolic code), Write(0..2 bytes), ReadFrom, Flush, with the underlying writer accepting a symbolic count n in [0,len] (ReadFrom: any n in [0,2^40)) and returning a symbolic error; Status()/BytesWritten() compared with a reference model after every operation; AccessHandler hands exactly those numbers to its callback. Precondition tee == nil (Tee is not reachable from package hlog).",
             "isolation": "NewHandler + each of the 15 field handlers alone, all 15 together, and none; three requests (A, B, A) with distinct attribute values (two of them with a symbolic byte) through the same handler chain: every request gets its own logger, each event carries only its own request's values, serving never writes into the base logger's context buffer (engine write-set), the base logger still emits only its own context",
